@@ -294,13 +294,20 @@ def main(ck):
     ncol, nseg = (60, 16) if ck.tier == "quick" else (1500, 300)
     nfault = 12 if ck.tier == "quick" else 150
     nchg = 16 if ck.tier == "quick" else 300
+    ncur = 10 if ck.tier == "quick" else 120
     if ck.replay:
         rp = json.load(open(ck.replay))
         rc, out = ck.run([binp, str(int(rp.get("case", 0)) + 1)], timeout=3000, env={"VERIF_SEED": str(rp.get("seed", ck.seed)),
                                                                                  "VERIF_TIER": rp.get("tier", ck.tier)})
         insts = [json.loads(l) for l in out.splitlines() if l.startswith('{"case"')]
         insts = [i for i in insts if i["case"] == rp.get("case")]
-        cols, faults = [], []
+        cols, faults, curs = [], [], []
+        if rp.get("curcase") is not None:
+            cn = int(rp["curcase"])
+            rc, out = ck.run([binp, "0", "0", "0", "0", "0", str(cn + 1)], timeout=3000, env={"VERIF_SEED": str(rp.get("seed", ck.seed)), "VERIF_TIER": rp.get("tier", ck.tier)})
+            curs = [json.loads(l) for l in out.splitlines() if l.startswith('{"curcase"')]
+            curs = [c for c in curs if c["curcase"] in (cn, -1)]
+            insts = insts or [dict(DUMMY)]
         if rp.get("faultcase") is not None:
             fcn = int(rp["faultcase"])
             rc, out = ck.run([binp, "0", "0", "0", str(fcn + 1)], timeout=3000, env={"VERIF_SEED": str(rp.get("seed", ck.seed)), "VERIF_TIER": rp.get("tier", ck.tier)})
@@ -316,10 +323,11 @@ def main(ck):
             cols = [c for c in cols if c["colcase"] == cc]
             insts = insts or [dict(DUMMY)]
     else:
-        rc, out = ck.run([binp, str(n), str(ncol), str(nseg), str(nfault), str(nchg)], timeout=5400)
+        rc, out = ck.run([binp, str(n), str(ncol), str(nseg), str(nfault), str(nchg), str(ncur)], timeout=5400)
         insts = [json.loads(l) for l in out.splitlines() if l.startswith('{"case"')]
         cols = [json.loads(l) for l in out.splitlines() if l.startswith('{"colcase"')]
         faults = [json.loads(l) for l in out.splitlines() if l.startswith('{"faultcase"')]
+        curs = [json.loads(l) for l in out.splitlines() if l.startswith('{"curcase"')]
     crashed = rc != 0 or "c03 done" not in out
     if crashed:
         # the real code panicked / the harness died: still apply the direct oracle to what was observed before
@@ -384,6 +392,14 @@ def main(ck):
                                  "says it completes" % (ci.get("panic"), ci["colcase"], ci["op"], ci["hist"]))
         elif ci.get("abandoned") and not ci.get("fail") and not sig:
             ck.broken.append("compaction / merge gave up without replacing files in column case %d op %s [%s]" % (ci["colcase"], ci["op"], ci["hist"]))
+    # ---- cursor-level cases: direct oracle ----
+    cur_viol = 0
+    for cu in curs:
+        if cu.get("fail") and cur_viol < 3:
+            cur_viol += 1
+            ck.violation({"kind": "direct-oracle", "what": cu["fail"][0], "all": cu["fail"][:4], "curcase": cu["curcase"], "op": cu["op"],
+                          "history": cu.get("hist"), "explanation": "a real shard (index, WAL, memtable flushes) read through shard.CreateCursor before the "
+                          "operation, after it, and after re-opening a copy of the shard directory frozen between two file-system mutations"})
     # ---- fault-injection cases: direct oracle ----
     f_known = 0
     f_viol = 0
@@ -500,7 +516,7 @@ def main(ck):
                     fmism.append((fi, runs[int(b)], int(c)))
             else:
                 fmism.append((fi, runs[int(b)] if int(c) != 60 else runs[0], int(c)))
-    if fmism and not oracle and not col_viol and not f_viol:
+    if fmism and not oracle and not col_viol and not f_viol and not cur_viol:
         fi, r, code = fmism[0]
         ck.broken.append("correspondence C03 fault model/implementation differs: fault case %d op %s %s at %s: %s" % (
             fi["faultcase"], fi["op"], r["kind"], r["at"], FCODES.get(code, str(code))))
@@ -536,6 +552,10 @@ def main(ck):
                              "model_mismatches": len(fmism), "runs_matching_variant_current_only": f_current,
                              "known_finding_failures": f_known}
     nimg += nfruns
+    ck.cov["cursor_cases"] = {"cases": len(curs), "crash_images_read_through_cursors": sum(c.get("images", 0) for c in curs),
+                              "operations": {o: len([c for c in curs if c["op"] == o]) for o in sorted({c["op"] for c in curs})},
+                              "wal_bytes_at_operation_start": sum(c.get("walbytes", 0) for c in curs)}
+    nimg += sum(c.get("images", 0) for c in curs)
     ck.cov["evaluations"] = nimg + len(cols)
     ck.cov["distinct_nontrivial"] = len(nontriv) + len(col_nontriv)
     ck.cov["column_cases"] = {"operations": len(cols), "histogram": colhist, "series_compared_with_column_model": len(colmod),
